@@ -424,6 +424,8 @@ def run(chk):
                             chk.note("%s: static %s is initialised once from members of the single literal-constructed %s object(s) %s" % (
                                 g.name, sym.show(x["lv"]), g.record, [s_["name"] for s_ in insts]))
                             continue
+                    if not ats and isinstance(x["val"], tuple) and (x["val"][0] in ("int", "float") or (x["val"][0] == "obj" and not x["val"][2])):
+                        continue        # a literal or a default construction: no run-time value enters the initialiser
                     once.append("%s: static %s is initialised once with %s (line %s)" % (g.name, sym.show(x["lv"]), sym.show(x["val"])[:60], x["l"]))
         chk.vcount(vn, "R5.functions_with_static_locals", nstat)
         chk.require(not once, "R5", "no function-local static reachable from a gate is initialised from run-time values", where="libtfhe/boot-gates.cpp",
